@@ -763,3 +763,36 @@ conect_atom = FunctionContract(
     modifies=['OUT'],
 )
 CONTRACTS.append(conect_atom)
+
+
+# ------------------------------------------------------------------ PDBParser._finish_molecule (TER / ENDMDL / END): the division into molecules
+def setup_fm(cx):
+    eng = cx.eng
+    mols = cx.box('molecules', TSeq(MolT))
+    active = cx.val('ACTIVE', MolT)
+    fresh = cx.val('NEW_MOLECULE', MolT)                      # Molecule(): a new, empty molecule
+    cx.spec_env.update(ACTIVE=active, NEW_MOLECULE=fresh, MolT=MolT)
+    nonempty = cx.uf('has_atoms', [MolT], TBool)              # truth of a molecule: it has atoms
+    eng.truth_hooks['MolT'] = lambda e, v: nonempty(v.e)
+    cx.assume(z3.Not(nonempty(fresh.e)))
+    cx.spec_env['Molecule'] = Builtin(lambda e: fresh, 'Molecule')
+    # no CRYST1 record was read (the box of the molecule is not part of this contract)
+    from pyvc.builtins import ConcreteList
+    return dict(self=Obj('PDBParser', active_molecule=active, molecules=mols, cryst=Obj('cryst', keys=Builtin(lambda e: ConcreteList([]), 'cryst.keys'))))
+
+
+finish_molecule = FunctionContract(
+    FP, 'PDBParser._finish_molecule', 'C16', setup=setup_fm,
+    ensures=[
+        # a TER (or ENDMDL / END) record closes the molecule being read: it is handed on - after the molecules closed before, and only
+        # if it has atoms - and a new, empty molecule is begun: the atoms between two TER records form one molecule
+        "implies(has_atoms(ACTIVE), len(self.molecules) == len(old(self.molecules)) + 1 and self.molecules[len(old(self.molecules))] == ACTIVE)",
+        "implies(not has_atoms(ACTIVE), len(self.molecules) == len(old(self.molecules)))",
+        "forall(lambda k: implies(0 <= k and k < len(old(self.molecules)), self.molecules[k] == old(self.molecules)[k]))",
+        "self.active_molecule == NEW_MOLECULE and not has_atoms(self.active_molecule)",
+    ],
+    modifies=['self.molecules', 'self.active_molecule'],
+    canary=[("if self.active_molecule:", "if not self.active_molecule:"), ("self.active_molecule = Molecule()", "pass"),
+            ("self.molecules.append(self.active_molecule)", "self.molecules = [self.active_molecule]")],
+)
+CONTRACTS.append(finish_molecule)
